@@ -114,6 +114,7 @@ func report(res *RunResult, repo, verif string, seed int, writeEvidence bool, wa
 	}
 	var viols []viol
 	var knownHit []KnownFinding
+	var exempt []string
 	total, discharged, covers := 0, 0, 0
 	byBackend := map[string]int{}
 	solverS := 0.0
@@ -151,6 +152,10 @@ func report(res *RunResult, repo, verif string, seed int, writeEvidence bool, wa
 				if !oblOK(o) && o.Result == "unsat" {
 					broken = append(broken, fmt.Sprintf("%s: cover not reachable (vacuity): %s", o.Name, o.Text))
 				}
+				continue
+			}
+			if o.Exempt != "" {
+				exempt = append(exempt, fmt.Sprintf("%s: %s (solver: %s)", o.Name, o.Exempt, o.Result))
 				continue
 			}
 			if o.Result == "disagree" {
@@ -257,6 +262,7 @@ func report(res *RunResult, repo, verif string, seed int, writeEvidence bool, wa
 				"vc_bytes":                 vcBytes,
 				"covers_checked":           covers,
 				"known_findings":           kf,
+				"exempt_obligations":       exempt,
 				"packages":                 res.Packages,
 				"samples":                  samples,
 				"explanation":              "every obligation is a verification condition generated from the go/ssa form of the named functions in /repo's working tree (loops cut at invariants, callees replaced by their contracts) and discharged by an SMT solver; obligations listed under known_findings are excluded from the counts",
